@@ -9,6 +9,7 @@ CONSTANTS
   MaxTime = 26
   Lossy = FALSE
   KeepLater = TRUE
+  DropUntil = 1000
   Async <- NoPeers
 INVARIANT TypeOK
 INVARIANT RemoveSaysGoodbye
